@@ -32,13 +32,14 @@ type c16In struct {
 	ID     []byte `json:"id"`   // the id the server intends (what the attribute value unescapes to)
 	Secret []byte `json:"secret"`
 	// connect only
-	Pre       string `json:"pre,omitempty"`   // ok | ws | refused | badheader:<variant>
-	Hdr       string `json:"hdr,omitempty"`   // std | noid | dq | idfirst | nsid
-	Wire      string `json:"wire,omitempty"`  // the escaped attribute value as sent
-	Reply     string `json:"reply,omitempty"` // name in c16Replies, or "write-fail"
-	Close     bool   `json:"close,omitempty"` // server closes right after the reply (no probe)
-	lateProbe bool   // handler-reconnect: send the probe only after watching the accepted connection
-	Depth     int    `json:"depth,omitempty"` // other:deep-delegation-*: nesting depth of the reply, generated when it is sent
+	Pre            string `json:"pre,omitempty"`              // ok | ws | refused | badheader:<variant>
+	Hdr            string `json:"hdr,omitempty"`              // std | noid | dq | idfirst | nsid
+	Wire           string `json:"wire,omitempty"`             // the escaped attribute value as sent
+	Reply          string `json:"reply,omitempty"`            // name in c16Replies, or "write-fail"
+	Close          bool   `json:"close,omitempty"`            // server closes right after the reply (no probe)
+	NoErrorHandler bool   `json:"no_error_handler,omitempty"` // reconnect: NewComponent(..., nil): the error callback is optional
+	lateProbe      bool   // handler-reconnect: send the probe only after watching the accepted connection
+	Depth          int    `json:"depth,omitempty"` // other:deep-delegation-*: nesting depth of the reply, generated when it is sent
 	// digest-seq / reconnect: the SAME Component value is used for every entry, in order
 	Sessions []c16Sess `json:"sessions,omitempty"`
 }
@@ -522,6 +523,13 @@ func (c16) Gen(r *rand.Rand, tier string) []interface{} {
 		default:
 			in.Sessions = append(in.Sessions, sess(string(c16GenID(r, true)), "lay", badReplies[r.Intn(5)], "", true))
 		}
+		out = append(out, in)
+	}
+	// a component built without an error callback (NewComponent(opts, router, nil)) loses its
+	// connection / is told a stream close and reconnects: no callback to call, no crash
+	for _, e := range ends {
+		in := c16In{Kind: "reconnect", Secret: []byte("mypass"), NoErrorHandler: true}
+		in.Sessions = append(in.Sessions, sess("one", "std", "handshake", e, false), sess("two", "std", "handshake", "client-close", true))
 		out = append(out, in)
 	}
 	{ // a refused handshake in the middle must not disturb the next one either
@@ -1210,13 +1218,17 @@ func c16RunReconnect(in c16In) Sx {
 		}
 	})
 	tcfg := xmpp.TransportConfiguration{Address: ln.Addr().String(), Domain: "comp.localhost", ConnectTimeout: 1}
-	c, _ := xmpp.NewComponent(xmpp.ComponentOptions{TransportConfiguration: tcfg, Domain: "comp.localhost", Secret: string(in.Secret),
-		Name: "verif", Category: "gateway", Type: "service"}, router, func(e error) {
+	errCallback := func(e error) {
 		select {
 		case gone <- e:
 		default:
 		}
-	})
+	}
+	if in.NoErrorHandler {
+		errCallback = nil // accepted by NewComponent; the receiver must cope with it
+	}
+	c, _ := xmpp.NewComponent(xmpp.ComponentOptions{TransportConfiguration: tcfg, Domain: "comp.localhost", Secret: string(in.Secret),
+		Name: "verif", Category: "gateway", Type: "service"}, router, errCallback)
 	disconnect := func() bool {
 		d := make(chan struct{})
 		go func() { c.Disconnect(); close(d) }()
@@ -1282,11 +1294,19 @@ func c16RunReconnect(in c16In) Sx {
 		switch {
 		case cerr == nil && s.End == "drop":
 			end <- "drop"
-			select {
-			case <-gone:
-			case <-time.After(c16Wait):
-				go disconnect()
-				return c16Timeout(fmt.Sprintf("connection %d: the component never noticed that the server dropped the connection", k+1))
+			if in.NoErrorHandler {
+				// no callback to wait for: the state tells
+				if st := c16AwaitState(c, 0, c16Wait); st != 0 {
+					go disconnect()
+					return c16Timeout(fmt.Sprintf("connection %d: the component never noticed that the server dropped the connection", k+1))
+				}
+			} else {
+				select {
+				case <-gone:
+				case <-time.After(c16Wait):
+					go disconnect()
+					return c16Timeout(fmt.Sprintf("connection %d: the component never noticed that the server dropped the connection", k+1))
+				}
 			}
 			endState = c16AwaitState(c, 0, c16EndWait)
 			if last {
@@ -1944,7 +1964,10 @@ func (c16) Key(inp interface{}) (string, bool) {
 	}
 	if in.Kind == "digest-seq" || in.Kind == "reconnect" {
 		var b strings.Builder
-		fmt.Fprintf(&b, "%s/%d/%d", in.Kind, len(in.Sessions), len(in.Secret)%8)
+		fmt.Fprintf(&b, "%s/%d/%d/%v", in.Kind, len(in.Sessions), len(in.Secret)%8, in.NoErrorHandler)
+		if in.NoErrorHandler {
+			hist("reconnect:no-error-callback")
+		}
 		hist(fmt.Sprintf("%s:handshakes-%d", in.Kind, len(in.Sessions)))
 		for _, s := range in.Sessions {
 			c := c16IDClass(s.ID)
